@@ -248,6 +248,10 @@ func checkC16(c *Check) {
 		return strings.Contains(o.Key, "ack") || strings.Contains(o.Key, "channel-write")
 	})
 	c.Expect("7/blocked-until-ack", 3)
+	// PTRACE_O_EXITKILL is only in force if the request that sets it is issued from the tracer's thread: the thread is
+	// pinned before the tracee is started and nobody undoes the pin (C17.3)
+	importObs(c, "C17", "C17.3/thread-affinity", "9/tracer-thread", nil)
+	c.Expect("9/tracer-thread", 3)
 
 	// every way out of the container's receive loop closes 'done' (end-of-file included): the init exits when the
 	// controller's end of the socket goes away
